@@ -24,7 +24,7 @@ Qed.
 Lemma codec_label_loader T K k j : 0 <= j < T -> 0 <= k < K -> T <= 256 ->
   loader_label T K (flat T k j) = j.
 Proof.
-  intros Hj Hk HT. unfold loader_label, u8, post_label, loader_remainder. cbn [andb].
+  intros Hj Hk HT. unfold loader_label, label_cast_after_modulo, u8, post_label, loader_remainder. cbn [andb].
   destruct (Z.ltb_spec 1 K) as [HK|HK].
   - destruct (Z.ltb_spec 0 T) as [H0|H0]; [|lia]. rewrite flat_mod by exact Hj. apply Z.mod_small. lia.
   - assert (k = 0) by lia. subst k.
@@ -35,7 +35,7 @@ Qed.
 Lemma codec_label_group T K k j : 0 <= j < T -> 0 <= k < K -> T <= 256 ->
   group_label T K (flat T k j) = j.
 Proof.
-  intros Hj Hk HT. unfold group_label, u8, post_label, group_remainder, has_rotation.
+  intros Hj Hk HT. unfold group_label, label_cast_after_modulo, u8, post_label, group_remainder, has_rotation.
   destruct (Z.ltb_spec 1 K) as [HK|HK].
   - destruct (Z.ltb_spec 0 T) as [H0|H0]; [|lia]. rewrite flat_mod by exact Hj. apply Z.mod_small. lia.
   - assert (k = 0) by lia. subst k.
@@ -44,7 +44,7 @@ Proof.
 Qed.
 
 Lemma group_equals_loader T K i : group_label T K i = loader_label T K i.
-Proof. unfold group_label, loader_label, group_remainder, loader_remainder, has_rotation. cbn [andb]. reflexivity. Qed.
+Proof. unfold group_label, loader_label, label_cast_after_modulo, group_remainder, loader_remainder, has_rotation. cbn [andb]. reflexivity. Qed.
 
 (** the flat index ranges over exactly niter = T*K candidates *)
 Lemma flat_range T K k j : 0 <= j < T -> 0 <= k < K -> 0 <= flat T k j < niter T K.
@@ -144,6 +144,10 @@ Proof.
 Qed.
 
 (** the defect class the old code had: decoding with [iopt mod K] is wrong for T>1, K>1 *)
+(** casting to uint8 before the modulo is wrong beyond 256 candidates unless T divides 256 *)
+Example early_cast_would_be_wrong : post_label (u8 (flat 3 86 1)) 3 = 0 /\ (flat 3 86 1) mod 3 = 1.
+Proof. vm_compute. split; reflexivity. Qed.
+
 Example old_decoding_was_wrong : (flat 3 1 0) mod 5 = 3 /\ align_quat_index (flat 3 1 0) 3 5 = 1.
 Proof. vm_compute. split; reflexivity. Qed.
 
